@@ -18,6 +18,8 @@ import Fir.Model.Resizer
 import Fir.Proofs.FixedLemmas
 import Fir.Proofs.ErrLemmas
 import Fir.Proofs.ImageLemmas
+import Fir.Proofs.TwoPassLemmas
+import Fir.Proofs.IdealFilterLemmas
 
 namespace Fir.C01
 open Fir
@@ -111,6 +113,87 @@ theorem vertPass_err_u8 (src : Img) (dstW dstH offset : Nat) (c : Coeffs) (ws : 
         - max 0 (min 255 (idealDot (ws y) (vWindow .u8 src offset c x y ch)))|
       ≤ 1 / 2 + ((ws y).length : ℚ) * 255 / 2 ^ ((qOf .u8 c).precision + 1) :=
   Fir.Proofs.vertPass_err_u8 src dstW dstH offset c ws hp1 hp hlen hq hsamp hacc x y ch hx hy hc
+
+/-! ### both passes of `do_convolution` composed (8-bit order): the accumulated error against the ideal separable filter
+    `Fir.Proofs.idealTwoPass8` (exact rationals, clamped to the component range after each pass like the pipeline) -/
+
+open Fir.Proofs in
+/-- every component of the model's two-pass 8-bit result is within
+    `(1/2 + n_H·255/2^(p_H+1)) + Σ|w^H|·(1/2 + n_V·255/2^(p_V+1))` of the ideal separable filter -/
+theorem twoPass_err_u8 (src : Img) (dstW dstH tempW xFirst : Nat) (vc hc : Coeffs) (wsV wsH : Nat → List ℚ)
+    (hpV1 : 1 ≤ (qOf .u8 vc).precision) (hpV : (qOf .u8 vc).precision < 32)
+    (hpH1 : 1 ≤ (qOf .u8 hc).precision) (hpH : (qOf .u8 hc).precision < 32)
+    (hlenV : ∀ y, y < dstH → (chunkAt .u8 vc y).2.toList.length = (wsV y).length)
+    (hqV : ∀ y, y < dstH → ∀ i, i < (wsV y).length →
+      |(((chunkAt .u8 vc y).2.toList.getD i 0 : Int) : ℚ) - (wsV y).getD i 0 * 2 ^ (qOf .u8 vc).precision| ≤ 1 / 2)
+    (hsamp : ∀ x y ch, x < tempW → y < dstH → ch < src.n → ∀ s ∈ vWindow .u8 src xFirst vc x y ch, 0 ≤ s ∧ s ≤ 255)
+    (haccV : ∀ x y ch, x < tempW → y < dstH → ch < src.n →
+      AccOK8 (chunkAt .u8 vc y).2.toList (vWindow .u8 src xFirst vc x y ch) (qOf .u8 vc).precision)
+    (hlenH : ∀ x, x < dstW → (chunkAt .u8 hc x).2.toList.length = (wsH x).length)
+    (hqH : ∀ x, x < dstW → ∀ i, i < (wsH x).length →
+      |(((chunkAt .u8 hc x).2.toList.getD i 0 : Int) : ℚ) - (wsH x).getD i 0 * 2 ^ (qOf .u8 hc).precision| ≤ 1 / 2)
+    (hfit : ∀ x, x < dstW → (chunkAt .u8 hc x).1 + (chunkAt .u8 hc x).2.size ≤ tempW)
+    (haccH : ∀ x y ch, x < dstW → y < dstH → ch < src.n →
+      AccOK8 (chunkAt .u8 hc x).2.toList (hWindow .u8 (vertPass .u8 src tempW dstH xFirst vc) 0 hc x y ch) (qOf .u8 hc).precision)
+    (x y ch : Nat) (hx : x < dstW) (hy : y < dstH) (hc' : ch < src.n) :
+    |(((horizPass .u8 (vertPass .u8 src tempW dstH xFirst vc) dstW dstH 0 hc).get x y ch : Int) : ℚ)
+        - idealTwoPass8 src xFirst vc hc wsV wsH x y ch|
+      ≤ (1 / 2 + ((wsH x).length : ℚ) * 255 / 2 ^ ((qOf .u8 hc).precision + 1))
+        + ((wsH x).map (|·|)).sum * (1 / 2 + ((wsV y).length : ℚ) * 255 / 2 ^ ((qOf .u8 vc).precision + 1)) :=
+  Fir.Proofs.twoPass_err_u8 src dstW dstH tempW xFirst vc hc wsV wsH hpV1 hpV hpH1 hpH hlenV hqV hsamp haccV hlenH hqH hfit haccH x y ch hx hy hc'
+
+open Fir.Proofs in
+/-- when both passes are needed and the pixel type is 8-bit, `doConvolution` IS the composition the
+    theorems above speak about (temporary image = columns `[boundsFirst, boundsLast)` of the vertical pass,
+    horizontal windows shifted by `boundsFirst`) -/
+theorem doConvolution_two_pass_u8 (p : PixT) (hk : p.kind = .u8) (src prev : Img) (cl ct cw ch : Float) (f : FilterSpec) (adaptive : Bool)
+    (hw : prev.w ≠ 0) (hh : prev.h ≠ 0) (hcw : (cw ≤ 0.0) = false) (hch : (ch ≤ 0.0) = false)
+    (hneedH : (Float.ofNat prev.w != cw || cl != cl.round) = true)
+    (hneedV : (Float.ofNat prev.h != ch || ct != ct.round) = true)
+    (htemp : boundsLast (precomputeCoefficients src.w cl (cl + cw) prev.w f adaptive)
+              - boundsFirst (precomputeCoefficients src.w cl (cl + cw) prev.w f adaptive) ≠ 0) :
+    let hc := precomputeCoefficients src.w cl (cl + cw) prev.w f adaptive
+    let vc := precomputeCoefficients src.h ct (ct + ch) prev.h f adaptive
+    doConvolution p src cl ct cw ch prev f adaptive =
+      horizPass .u8 (vertPass .u8 src (boundsLast hc - boundsFirst hc) prev.h (boundsFirst hc) vc) prev.w prev.h 0
+        { hc with bounds := hc.bounds.map fun b => (b.1 - boundsFirst hc, b.2) } :=
+  Fir.Proofs.doConvolution_two_pass_u8 p hk src prev cl ct cw ch f adaptive hw hh hcw hch hneedH hneedV htemp
+
+/-! ### from the implementation's f64 weights to the ideal kernel (`Fir.Spec.IdealFilter`): the per-geometry comparison
+    `|w_f64 − w_ideal| ≤ δ = 1e-9` of the correspondence check costs at most `n·δ·m` -/
+
+open Fir.Spec in
+/-- C01: weights that differ from other weights by at most `δ` per tap move the filtered value of samples
+    bounded by `m` by at most `n·δ·m` -/
+theorem weights_perturbation (ws ws' : List ℚ) (xs : List ℚ) (δ m : ℚ) (hlen : ws'.length = ws.length) (hlen2 : xs.length = ws.length)
+    (hδ : ∀ i, i < ws.length → |ws.getD i 0 - ws'.getD i 0| ≤ δ) (hm : ∀ x ∈ xs, |x| ≤ m) (hm0 : 0 ≤ m) :
+    |(List.zipWith (· * ·) ws xs).sum - (List.zipWith (· * ·) ws' xs).sum| ≤ (ws.length : ℚ) * δ * m :=
+  Fir.Proofs.weights_perturbation ws ws' xs δ m hlen hlen2 hδ hm hm0
+
+open Fir.Spec in
+theorem qBilinear_support (x : ℚ) (h : 1 ≤ |x|) : qBilinear x = 0 :=
+  Fir.Proofs.qBilinear_support x h
+
+open Fir.Spec in
+theorem qCatmull_support (x : ℚ) (h : 2 ≤ |x|) : qCatmull x = 0 :=
+  Fir.Proofs.qCatmull_support x h
+
+open Fir.Spec in
+theorem qMitchell_support (x : ℚ) (h : 2 ≤ |x|) : qMitchell x = 0 :=
+  Fir.Proofs.qMitchell_support x h
+
+open Fir.Spec in
+/-- the kernels are even (bilinear, Catmull-Rom, Mitchell) and vanish outside their support -/
+theorem qBilinear_even (x : ℚ) : qBilinear (-x) = qBilinear x :=
+  Fir.Proofs.qBilinear_even x
+
+open Fir.Spec in
+theorem qCatmull_even (x : ℚ) : qCatmull (-x) = qCatmull x :=
+  Fir.Proofs.qCatmull_even x
+
+open Fir.Spec in
+theorem qMitchell_even (x : ℚ) : qMitchell (-x) = qMitchell x :=
+  Fir.Proofs.qMitchell_even x
 
 /-- SuperSampling is the convolution of the nearest-neighbour intermediate image it documents
     (factor > 1.2), or the plain convolution (otherwise) - by the model's control flow -/
